@@ -12,7 +12,9 @@ in, and violates the pure property (expected counterexample);
 
 Binding: the faithful exhaustive run exports one row per finished exchange; every row is rendered
 to bytes and sent to a real jsonrpc.Server with recording handlers (HandleReader, HandleReadWriter,
-HTTP handler); TLC-simulated batches likewise on a 3-worker pool; the answer bytes and the handler
+HTTP handler), at once or in seeded CHUNKS (chunking io.Reader / body streamed through io.Pipe), at
+natural size and - for every request that reaches a handler, every batch and a sample of all other
+classes - LARGE (600 B .. 64 KiB: transport/framing independence); TLC-simulated batches likewise on a 3-worker pool; the answer bytes and the handler
 invocation log are compared with what the PROPERTY promises (not with the switches). Plus seeded
 byte-level mutants judged with encoding/json + the abstraction function + the exhaustive table.
 """
@@ -103,15 +105,17 @@ def run(ctx):
         raise vlib.Broken("a request did not return within the per-request deadline (harness timeout; stats %s)" % st)
     if st.get("abstraction_mismatch"):
         raise vlib.Broken("harness self-check failed: abstraction(render(x)) != x for %s inputs; samples %s" % (
-            st["abstraction_mismatch"], res.get("samples")))
-    if st.get("selftest_missed") or not st.get("selftest_caught"):
-        raise vlib.Broken("binding self-test: corrupted expectations were accepted (%s missed, %s caught)" % (
-            st.get("selftest_missed"), st.get("selftest_caught")))
-    if "panic:" in res.get("_stdout", ""):
-        raise vlib.Broken("engine panicked:\n" + res["_stdout"][-3000:])
-    if st.get("exchanges", 0) < len(rows) or not st.get("exchanges_invoking_a_handler"):
-        raise vlib.Broken("engine replayed too little: %s" % st)
+            st["abstraction_mismatch"], st.get("abstraction_mismatch_samples")))
     ctx.absorb(res, "jsonrpc", "TestJsonRpcReplay")
+    if not ctx.violations:
+        if st.get("selftest_missed") or not st.get("selftest_caught"):
+            raise vlib.Broken("binding self-test: corrupted expectations were accepted (%s missed, %s caught)" % (
+                st.get("selftest_missed"), st.get("selftest_caught")))
+        if "panic:" in res.get("_stdout", ""):
+            raise vlib.Broken("engine panicked:\n" + res["_stdout"][-3000:])
+        if st.get("exchanges", 0) < len(rows) or not st.get("exchanges_invoking_a_handler") \
+                or not st.get("large_chunked_exchanges_invoking_a_handler") or not st.get("exchanges_delivered_in_chunks"):
+            raise vlib.Broken("engine replayed too little: %s" % st)
     ctx.coverage["rows_exported_exhaustively"] = len(rows)
     ctx.coverage["simulated_batches"] = len(batches)
     ctx.coverage["exhaustive"] = False
@@ -128,7 +132,8 @@ def run(ctx):
         "model_checking",
         "exhaustive TLC on JsonRpc.tla (repaired + faithful) over the full member alphabet for singles/batches of one and "
         "over class representatives for batches <= 3/4 with every pool interleaving; every exported row (one per distinct "
-        "abstract input) rendered with seeded syntax variation and sent to the real jsonrpc.Server through HandleReader / "
-        "HandleReadWriter / HTTP; TLC-simulated batches of <= 6 entries on a 3-worker pool; seeded byte-level mutants judged "
+        "abstract input) rendered with seeded syntax variation (natural size, and 600 B..64 KiB for all handler-reaching "
+        "requests, batches and a sixth of the rest) and sent to the real jsonrpc.Server through HandleReader / "
+        "HandleReadWriter / HTTP, at once or in seeded read-size patterns; TLC-simulated batches of <= 6 entries on a 3-worker pool; seeded byte-level mutants judged "
         "by encoding/json + abstraction + the exhaustive table; non-trivial = the answer bytes are parsed and compared "
         "(shape, one response per owed entry, id, result/error, code, payload) and the handler log is compared")
